@@ -4,6 +4,10 @@ from vfam import *  # noqa
 
 THEOREMS = ["C01_constructor", "C01_fill_contents", "C01_fill_length", "C01_any_representation", "C01_get_depth", "C01_decode_route", "C01_decode_any", "C01_any_repr_root", "C01_import_route", "C01_default_route", "C01_mutation_route"]
 PARTIAL = ["the model theorems cover every route the property lists: constructor (C01_constructor), decoding (C01_decode_route / C01_decode_any), object import (C01_import_route), default (C01_default_route), mutation (C01_mutation_route, with C05_cmd_on_chain for enclosing views); what is not a theorem is that the Python classes compute what the model computes (correspondence: five routes per value) and type expressions outside wf_ty (limits >= 2^64, empty containers)"]
+# second tie: the tree builders of remerkleable/tree.py (every composite value and every default is built by them) are
+# TRANSLATED on every run (harness/translate_fill.py, fail-closed) and proved equal to the model's (coq/trans/FillEq.v)
+TRANSLATED = {"translator": "translate_fill", "source": "remerkleable/tree.py", "gen": "FillGen.v", "proofs": "FillEq.v",
+              "theorems": ["eq_fill_to_depth", "eq_fill_to_length", "eq_fill_to_contents"]}
 COQ_IMPORTS = ["RM.Types", "RMR.RunV"]
 COQ_FN = "RunV.run_c01"
 COQ_CASE_TY = "(ty * val)"
